@@ -15,6 +15,7 @@ RULE = (
     "{00,01,7F,80,81,FF}, blobs whose ciphertext is exactly 64 KiB, 1 MiB (thorough: also 2 MiB, 3 MiB, 16 MiB; sparse flips and truncations) (64 KiB: every bit of its headers and of the first/last bytes of the ciphertext, two bits of every 1021st byte, truncations around 4 KiB/64 KiB) through the sync and the async API, and all pairs of flips among {bit 0 of every byte whose flip was harmless} u {first bit of every field}. Algorithm substitution: the content-encryption algorithm identifier replaced by 17 other ciphers / modes x 5 parameter forms, for the IV forms combined with every value of the last / 17th-from-last ciphertext octet. Forgeries that need no secret: key position overwritten with one of 11 positions x 2 L0, wrapped CEK re-wrapped under a KEK derived from one of 7 publicly known byte strings (empty, zeros, the root key id, the key nonce, ...) used as L2 key / L1 key / L0 seed / root key, content re-encrypted (IV kept). The same forgeries against caches with a history (seed keys fetched from the DC; then a protect served from the cache; root key + a protect at (31,31)). Each mutated blob is decrypted by the real unprotect API with an offline "
     "cache holding the right root key (network seams raise). Blobs rejected by the authentication checks are decrypted a second time in the same process (a retry must not succeed). Oracle: original plaintext | any exception | needs-network; different bytes is the violation. Distinct by (blob, mutation); non-trivial = the "
     "mutated bytes differ from the original."
+    ' Also: public-key blobs under ECDH root keys whose key_info is replaced by a DH key blob with public value 0 / 1 / p-1 (forged for the degenerate shared secret); a reader who is not authorised for the SID (the DC answers with a public-key envelope) offered blobs re-keyed from that public key.'
 )
 ASSUME = ["offline KeyCache with the matching root key; DNS/socket seams raise NeedsNetwork", "BudgetExceeded / hangs are C05's subject, not C04's"]
 BOUND = {"quick": "5 base blobs", "thorough": "33 base blobs"}
